@@ -141,6 +141,12 @@ Theorem C12_own_time_interior : forall td b0 v0 rest, dom td -> td_bpms td = (b0
 Proof. exact own_time_interior. Qed.
 Print Assumptions C12_own_time_interior.
 
+(* every answer is tick-aligned: any time, any tag, on timing data whose event beats lie on the tick grid *)
+Theorem C12_tick_aligned_td : forall td v0, (forall e, In e (events td) -> exists k : Z, e_beat e == inject_Z k / 48) ->
+  forall t q, exists k : Z, fst (beat_at_raw (sts td v0) (init_state td v0) t q) == inject_Z k / 48.
+Proof. exact beat_at_aligned_td. Qed.
+Print Assumptions C12_tick_aligned_td.
+
 (* the same on any list of states whose times never decrease and whose consecutive states are one step apart *)
 Theorem C12_monotone_chain : forall sts d t1 t2 q, sts <> [] -> times_sorted sts -> chain sts -> t1 <= t2 ->
   fst (beat_at_raw sts d t1 q) <= fst (beat_at_raw sts d t2 q).
